@@ -4,6 +4,7 @@ import (
 	"fmt"
 	"go/ast"
 	"go/types"
+	"reflect"
 	"runtime/debug"
 	"strings"
 )
@@ -25,6 +26,16 @@ func (w *World) VerifyFunc(key string) (res *FuncResult) {
 	if fi == nil && c != nil && c.Kind == "closure" {
 		fi = w.closureInfo(key)
 	}
+	inst := ""
+	if i := strings.Index(key, "["); i >= 0 && strings.HasSuffix(key, "]") && fi == nil {
+		// an instance of a generic function or of a method of a generic type: gtree.f[jsonNode]
+		inst = key[i+1 : len(key)-1]
+		if base := w.Funcs[key[:i]]; base != nil {
+			cp := *base
+			cp.Key = key
+			fi = &cp
+		}
+	}
 	if fi == nil {
 		res.OutOfSubset = "unbound-contract: no function " + key + " in the loaded packages"
 		return
@@ -33,7 +44,26 @@ func (w *World) VerifyFunc(key string) (res *FuncResult) {
 		res.OutOfSubset = "no contract for " + key
 		return
 	}
-	x := &Exec{W: w, Fn: fi, C: c}
+	if c.Implements != "" {
+		if pc := w.CS.ByKey["protocol."+c.Implements]; pc != nil {
+			if c.ImplInst != "" {
+				pc = instantiateContract(pc, c.ImplInst, w.CS)
+			}
+			merged := *c
+			merged.Requires = append(append([]*Clause{}, c.Requires...), pc.Requires...)
+			merged.Ensures = append(append([]*Clause{}, c.Ensures...), pc.Ensures...)
+			merged.Modifies = append(append([]*ModItem{}, c.Modifies...), pc.Modifies...)
+			merged.HasMod = true
+			if len(merged.Params) == 0 {
+				merged.Params = pc.Params
+			}
+			c = &merged
+		} else {
+			res.OutOfSubset = "closure implements unknown protocol " + c.Implements
+			return
+		}
+	}
+	x := &Exec{W: w, Fn: fi, C: c, inst: inst}
 	defer func() {
 		if r := recover(); r != nil {
 			switch e := r.(type) {
@@ -58,6 +88,23 @@ func (x *Exec) run(res *FuncResult) {
 	sig := fi.Obj.Type().(*types.Signature)
 	st := &St{vars: map[types.Object]*Val{}, heap: map[string]*Term{}, defers: map[int][]deferred{}}
 	fr := &Frame{id: x.newFrameID(), fi: fi, info: fi.Pkg.TypesInfo}
+	if x.inst != "" {
+		ity, ok := x.W.parseTypeText(x.inst, fi.Pkg)
+		if !ok {
+			oos("unknown instance type %s", x.inst)
+		}
+		if _, isStruct := ity.Underlying().(*types.Struct); isStruct {
+			ity = types.NewPointer(ity)
+		}
+		fr.tsubst = map[*types.TypeParam]types.Type{}
+		tps := sig.TypeParams()
+		if tps.Len() == 0 {
+			tps = sig.RecvTypeParams()
+		}
+		for i := 0; i < tps.Len(); i++ {
+			fr.tsubst[tps.At(i)] = ity
+		}
+	}
 	names := map[string]*Val{}
 	// receiver
 	if fi.Decl.Recv != nil && len(fi.Decl.Recv.List) > 0 {
@@ -395,6 +442,48 @@ func (w *World) lemmaAxiom(x *Exec, lc *Contract, lf *FuncInfo) *Term {
 	return Forall(vars, pats, body, "lemma."+lc.Key)
 }
 
+// TagObligations decides the struct-tag declarations syntactically (no solver involved).
+func (w *World) TagObligations(prop string) []*Obligation {
+	var out []*Obligation
+	for _, td := range w.CS.Tags {
+		has := false
+		for _, p := range td.Props {
+			if p == prop {
+				has = true
+			}
+		}
+		if !has {
+			continue
+		}
+		ok := false
+		if ty, found := w.parseTypeText(td.Type, w.mainPkg()); found {
+			if st, isStruct := ty.Underlying().(*types.Struct); isStruct {
+				for i := 0; i < st.NumFields(); i++ {
+					if st.Field(i).Name() == td.Field {
+						if v, has := reflectTag(st.Tag(i), td.Key); has && v == td.Value {
+							ok = true
+						}
+					}
+				}
+			}
+		}
+		o := &Obligation{Name: "gtree." + td.Type + "/tag#" + td.Field + "." + td.Key, Func: "gtree." + td.Type, Kind: "tag", Label: td.Field, Props: td.Props,
+			Pos: td.Pos, Clause: fmt.Sprintf("field %s.%s carries the struct tag %s:%q", td.Type, td.Field, td.Key, td.Value), Goal: True, Solver: "syntactic"}
+		if ok {
+			o.Result = "unsat"
+		} else {
+			o.Goal = False
+			o.Result = "sat"
+		}
+		out = append(out, o)
+	}
+	return out
+}
+
+func reflectTag(tag, key string) (string, bool) {
+	return reflect.StructTag(tag).Lookup(key)
+}
+
 // FuncKeysWithContracts lists the function contracts (not loops) bound to repository functions.
 func (w *World) ContractedFuncs() []string {
 	var out []string
@@ -404,6 +493,14 @@ func (w *World) ContractedFuncs() []string {
 				out = append(out, c.Key)
 			}
 			continue
+		}
+		if c.Kind == "func" {
+			if i := strings.Index(c.Key, "["); i >= 0 && !c.Flags["assumed"] {
+				if _, ok := w.Funcs[c.Key[:i]]; ok {
+					out = append(out, c.Key)
+				}
+				continue
+			}
 		}
 		if c.Kind == "func" || c.Kind == "lemma" || c.Kind == "spec" {
 			if fi, ok := w.Funcs[c.Key]; ok && fi.Decl != nil {
